@@ -1,34 +1,32 @@
 package main
 
-import (
-	"math/rand/v2"
-
-	"verifh/vh"
-)
-
-type fltCase struct{}
-type strCase struct{}
-type blkCase struct{}
-
-func runFloat(w *vh.W, c *jcase) {}
-func runStr(w *vh.W, c *jcase)   {}
-func runBlock(w *vh.W, c *jcase) {}
+import "math/rand/v2"
 
 func fixedCases() []jcase {
 	cs := fixedS8b()
 	cs = append(cs, fixedInt()...)
 	cs = append(cs, fixedBool()...)
+	cs = append(cs, fixedFloat()...)
+	cs = append(cs, fixedStr()...)
+	cs = append(cs, fixedBlock()...)
 	return cs
 }
+
 func genCase(r *rand.Rand, big bool) jcase {
 	switch x := r.IntN(100); {
-	case x < 25:
+	case x < 17:
 		return genS8b(r, big)
-	case x < 55:
+	case x < 37:
 		return genInt(r, big)
-	case x < 85:
+	case x < 57:
 		return genTime(r, big)
-	default:
+	case x < 63:
 		return genBool(r, big)
+	case x < 82:
+		return genFloat(r, big)
+	case x < 88:
+		return genStr(r)
+	default:
+		return genBlock(r, big)
 	}
 }
